@@ -6,7 +6,7 @@ successfully, earlier; in an acyclic project nothing ever fails.
 namespace Dawn.Loader
 
 /-- the module finished loading without error -/
-def okLoaded (s : State) (m : Mod) : Prop := s.loaded m = true ∧ s.failed m = false
+def okLoaded (s : State) (m : Mod) : Prop := s.loaded m = true ∧ s.result m = .ok
 
 structure Inv5 (P : Project) (s : State) : Prop where
   /-- the `load`s of a body that have been executed succeeded -/
@@ -145,23 +145,6 @@ theorem inv5_fstep {P : Project} {s s' : State} {t : Tid} (inv1 : Inv1 P s) (inv
       by_cases hdm : d = f.mod
       · subst hdm; rw [hlive.1] at this; simp at this
       · simpa [hdm] using this
-  case fin.ok_closed r f rest hpc hst =>
-    have hlive := j5 t f (by simp [hst])
-    intro m hm d hd
-    by_cases hmf : m = f.mod
-    · subst hmf
-      simp only [↓reduceIte, beq_eq_false_iff_ne, ne_eq, true_and] at hm
-      have hr : r = .ok := by cases r <;> simp_all
-      subst hr
-      have htd := m3 t f rest hpc hst
-      have hok := m1 t f (by simp [hst]) (P.loads f.mod) (by simp [htd]) d hd
-      have hne : d ≠ f.mod := by intro e; subst e; rw [hlive.1] at hok; simp at hok
-      simp only [hne, ↓reduceIte]
-      exact ⟨hok, m5 d hok.1⟩
-    · simp only [hmf, ↓reduceIte] at hm ⊢
-      have := m4 m hm d hd
-      have hne : d ≠ f.mod := by intro e; subst e; rw [hlive.1] at this; simp at this
-      simpa [hne] using this
   case fin.root_done r f rest hpc hst =>
     have hlive := j5 t f (by simp [hst])
     intro t1 r1 hr h
@@ -180,32 +163,67 @@ theorem inv5_reachable {P : Project} {s : State} (h : Reachable .fixed P s) : In
   reachable_induction (I := Inv5 P) (inv5_init P)
     (fun _ _ _ hr ih st => inv5_fstep (inv1_reachable hr) (inv2_reachable hr) ih st) h
 
-/-- in an acyclic project no goroutine ever holds a cyclic-dependency verdict and no module fails -/
+/-- every module the project can reach has an environment (its project is in the build list, …) -/
+def NoBroken (P : Project) : Prop := ∀ m, Reach P m → P.broken m = false
+
+/-- in an acyclic project without unfetchable modules no goroutine ever holds an error and no module fails -/
 structure NoFail (s : State) : Prop where
-  no_unset : ∀ t, s.pc t ≠ .unset .cyc
-  no_fin : ∀ t, s.pc t ≠ .fin .cyc
-  no_failed : ∀ m, s.failed m = false
+  no_unset : ∀ t r, s.pc t = .unset r → r = .ok
+  no_fin : ∀ t r, s.pc t = .fin r → r = .ok
+  no_failed : ∀ m, s.result m = .ok
 
 theorem nofail_init (P : Project) : NoFail (init P) := by
   constructor
-  · intro t h
-    rcases init_pc P t with ⟨_, h2⟩ | ⟨r, _, h2⟩ <;> rw [h2] at h <;> cases h
-  · intro t h
-    rcases init_pc P t with ⟨_, h2⟩ | ⟨r, _, h2⟩ <;> rw [h2] at h <;> cases h
+  · intro t r h
+    rcases init_pc P t with ⟨_, h2⟩ | ⟨r', _, h2⟩ <;> rw [h2] at h <;> cases h
+  · intro t r h
+    rcases init_pc P t with ⟨_, h2⟩ | ⟨r', _, h2⟩ <;> rw [h2] at h <;> cases h
   · intro m; rfl
 
-theorem nofail_fstep {P : Project} {s s' : State} {t : Tid} (hac : Acyclic P) (inv1 : Inv1 P s) (inv4 : Inv4 P s)
-    (inv : NoFail s) (st : FStep P s t s') : NoFail s' := by
+theorem nofail_fstep {P : Project} {s s' : State} {t : Tid} (hac : Acyclic P) (hnb : NoBroken P) (inv1 : Inv1 P s)
+    (inv4 : Inv4 P s) (inv : NoFail s) (st : FStep P s t s') : NoFail s' := by
   have ⟨n1, n2, n3⟩ := inv
   cases st
   case walkCyc d c hpc htop =>
     have := verdict_cycle inv1 inv4 hpc htop
     exact absurd this.2 (hac c this.1)
+  case runBroken f rest hpc hst hb =>
+    have := hnb f.mod (inv4.reg_reach f.mod (inv1.frame_reg t f (by simp [hst])))
+    rw [this] at hb; cases hb
   all_goals
     constructor <;> simp only [setPc, publish, upd, resOf] at * <;> grind
 
-theorem nofail_reachable {P : Project} (hac : Acyclic P) {s : State} (h : Reachable .fixed P s) : NoFail s :=
+theorem nofail_reachable {P : Project} (hac : Acyclic P) (hnb : NoBroken P) {s : State} (h : Reachable .fixed P s) :
+    NoFail s :=
   reachable_induction (I := NoFail) (nofail_init P)
-    (fun _ _ _ hr ih st => nofail_fstep hac (inv1_reachable hr) (inv4_reachable hr) ih st) h
+    (fun _ _ _ hr ih st => nofail_fstep hac hnb (inv1_reachable hr) (inv4_reachable hr) ih st) h
+
+/-- without unfetchable modules the only error there is is the cyclic-dependency error -/
+structure OnlyCyc (s : State) : Prop where
+  no_unset : ∀ t, s.pc t ≠ .unset .err
+  no_fin : ∀ t, s.pc t ≠ .fin .err
+  no_err : ∀ m, s.result m ≠ .err
+
+theorem onlycyc_init (P : Project) : OnlyCyc (init P) := by
+  constructor
+  · intro t h
+    rcases init_pc P t with ⟨_, h2⟩ | ⟨r', _, h2⟩ <;> rw [h2] at h <;> cases h
+  · intro t h
+    rcases init_pc P t with ⟨_, h2⟩ | ⟨r', _, h2⟩ <;> rw [h2] at h <;> cases h
+  · intro m h; cases h
+
+theorem onlycyc_fstep {P : Project} {s s' : State} {t : Tid} (hnb : NoBroken P) (inv1 : Inv1 P s)
+    (inv4 : Inv4 P s) (inv : OnlyCyc s) (st : FStep P s t s') : OnlyCyc s' := by
+  have ⟨n1, n2, n3⟩ := inv
+  cases st
+  case runBroken f rest hpc hst hb =>
+    have := hnb f.mod (inv4.reg_reach f.mod (inv1.frame_reg t f (by simp [hst])))
+    rw [this] at hb; cases hb
+  all_goals
+    constructor <;> simp only [setPc, publish, upd, resOf] at * <;> grind
+
+theorem onlycyc_reachable {P : Project} (hnb : NoBroken P) {s : State} (h : Reachable .fixed P s) : OnlyCyc s :=
+  reachable_induction (I := OnlyCyc) (onlycyc_init P)
+    (fun _ _ _ hr ih st => onlycyc_fstep hnb (inv1_reachable hr) (inv4_reachable hr) ih st) h
 
 end Dawn.Loader
